@@ -18,7 +18,7 @@ PROP = "C17"
 FORMATS = ["tabs", "lines", "list", "csv", "json", "html"]
 CONTENT_COLS = ["sha1", "sha256", "sha512", "sha3", "line_count", "is_shebang", "contains('ab')"]
 
-_ERR = re.compile(r"^\d+ (opendir|realpath|readdir) (\S+) (\S+) (?:@\d+ )?-> err (\d+)")
+_ERR = re.compile(r"^\d+ (opendir|realpath|readdir|lstat|stat) (\S+) (\S+) (?:@\d+ )?-> err (\d+)")
 _MUT = re.compile(r"^\d+ mutate (\w+) after (\w+) (\S+) inj:mutate")
 
 
@@ -113,8 +113,16 @@ class Check:
         errs = ["EACCES", "ENOENT", "ENOTDIR"] + (["EIO", "EMFILE"] if tier == "thorough" else [])
         for d in dict.fromkeys(targets):
             isroot = d in tops
-            kinds = ["opendir", "opendir", "realpath_fail"] + ([] if isroot else ["vanish_listed", "replaced_listed", "vanish_after_canon", "readdir_mid"])
+            kinds = ["opendir", "opendir", "realpath_fail", "unsearchable"] + ([] if isroot else ["vanish_listed", "replaced_listed", "vanish_after_canon", "readdir_mid"])
             kind = rng.choice(kinds)
+            if kind == "unsearchable":
+                # the directory can be read but not searched (r--): its entries are listed, but every access *through* it
+                # (lstat, realpath, opendir, open of a child) is refused
+                kids = [n["path"] for n in world["nodes"] if n["path"].rsplit("/", 1)[0] == d]
+                for c in kids:
+                    for call in ("stat", "realpath", "opendir", "open"):
+                        faults.append({"fail": {"call": call, "path": c, "errno": "EACCES"}, "unsearchable_parent": d})
+                continue
             if kind == "opendir":
                 faults.append({"fail": {"call": "opendir", "path": d, "errno": rng.choice(errs)}})
             elif kind == "realpath_fail":
@@ -152,7 +160,7 @@ class Check:
         _, env = gen.gen_env(rng, world)
         nm = gen.node_map(world)
         faults = []
-        kind = rng.choice(["open", "open", "read", "read", "short_only", "vanish", "fifo", "dangling", "readlink"])
+        kind = rng.choice(["open", "open", "read", "read", "short_only", "vanish", "fifo", "dangling", "readlink", "lstat_fail", "vanish_before_stat"])
         if kind == "fifo":
             world["nodes"].append({"path": tops[0] + "/pipe0", "type": "fifo"})
         elif kind == "dangling":
@@ -176,6 +184,10 @@ class Check:
                         faults.append({"fail": {"call": "read", "path": f, "errno": "EIO", "arg": off}})
                 elif kind == "vanish":
                     faults.append({"mutate": {"call": "stat", "path": f, "nth": 1, "action": "unlink", "target": f}})
+                elif kind == "lstat_fail":
+                    faults.append({"fail": {"call": "stat", "path": f, "errno": rng.choice(["EACCES", "EIO", "ENOENT"])}})
+                elif kind == "vanish_before_stat":
+                    faults.append({"mutate": {"call": "dirent", "path": f, "nth": 1, "action": "unlink", "target": f}})
         chunks = {}
         if kind == "short_only" or rng.random() < 0.3:
             for f in files:
@@ -248,6 +260,16 @@ class Check:
             s += " " + r["mode"]
             parts.append(s)
         return " from " + ", ".join(parts)
+
+    @staticmethod
+    def link_target(nm, wpath):
+        import os
+        node, tgt, hops = nm.get(wpath), wpath, 0
+        while node is not None and node["type"] == "symlink" and hops < 8:
+            tgt = os.path.normpath(os.path.join(os.path.dirname(tgt), node["target"]))
+            node = nm.get(tgt)
+            hops += 1
+        return tgt
 
     def plan_with(self, case, faults=True):
         p = copy.deepcopy(case["plan"])
@@ -340,12 +362,20 @@ class Check:
                 viols.append(Violation(PROP, "C17.A.crash", ["C17.A", "abnormal_end:" + bad, fkind, shape], {"query": q, "faults": case["faults"], "outcome": res.summary()}))
                 return viols
             failed, mid, mutated = set(), set(), set()
+            stat_failed = False
+            nm = gen.node_map(world)
             for l in res.log:
                 m = _ERR.match(l)
                 if m:
                     p = as_world_path(m.group(2), m.group(3))
                     if m.group(1) == "readdir":
-                        mid.add(unq(m.group(2)) if m.group(3).startswith("@") or True else p)
+                        mid.add(unq(m.group(2)))
+                    elif m.group(1) in ("lstat", "stat"):
+                        # an entry that cannot be stat'ed: if it is a directory it cannot be entered either
+                        if " inj:fail" in l:
+                            stat_failed = True
+                            if p in nm and nm[p]["type"] == "dir":
+                                failed.add(p)
                     else:
                         failed.add(p)
                     continue
@@ -386,10 +416,34 @@ class Check:
                         viols.append(Violation(PROP, "C17.A.stderr", ["C17.A", "path_not_named", fkind, shape],
                                                {"query": q, "dir": d, "stderr": res.stderr[:400].decode("utf-8", "replace")}))
                         break
-            elif not mutated:
+            elif not mutated and not stat_failed:
                 ctx.metric("A_fault_not_reached")
                 if res.status != 0 or res.stderr:
                     viols.append(Violation(PROP, "C17.A.clean", ["C17.A", "status_without_failure", fkind, shape], {"query": q, "outcome": res.summary()}))
+            # a sub-directory that cannot be entered because its parent is not searchable must be reported, not skipped silently
+            unsearch = sorted({f["unsearchable_parent"] for f in case["faults"] if "unsearchable_parent" in f})
+            for P in unsearch:
+                for r in roots:
+                    if not (P == r["top"] or P.startswith(r["top"] + "/")):
+                        continue
+                    # P itself must have been reached: no ancestor-or-self failed or vanished, and within the descent limit
+                    anc, blocked_above = P, False
+                    while True:
+                        if anc in failed or anc in mutated:
+                            blocked_above = True
+                        if anc == r["top"]:
+                            break
+                        anc = anc.rsplit("/", 1)[0]
+                    if blocked_above:
+                        continue
+                    lvlP = 0 if P == r["top"] else P[len(r["top"]) + 1:].count("/") + 1
+                    for n in world["nodes"]:
+                        if n["type"] == "dir" and n["path"].rsplit("/", 1)[0] == P and (r["maxd"] == 0 or lvlP + 1 < r["maxd"]):
+                            name = r["sp"] + n["path"][len(r["top"]):]
+                            if res.status != 1 or name.encode("utf-8") not in res.stderr:
+                                viols.append(Violation(PROP, "C17.A.silent", ["C17.A", "unlistable_directory_skipped_silently", "unsearchable_parent", shape],
+                                                       {"query": q, "parent": P, "directory": n["path"], "status": res.status, "stderr": res.stderr[:300].decode("utf-8", "replace")}))
+                                break
             ctx.metric("A_dirs_failed", len(failed))
             ctx.metric("A_dirs_vanished", len(mutated))
             ctx.metric("A_midstream", len(mid))
@@ -415,6 +469,39 @@ class Check:
                 if "fail" in f:
                     fkind = "%s:%s:%s" % (kind, f["fail"]["call"], f["fail"]["errno"])
             colsig = "+".join(sorted(c.split("(")[0] for c in cols))
+            if kind in ("lstat_fail", "vanish_before_stat"):
+                # the entry's attributes cannot be obtained: its columns may be empty, never another entry's values
+                mcols = ["path", "size", "mode", "inode", "hardlinks", "uid", "is_dir", "is_file", "modified"] + cols[:1]
+                qm = "select " + ", ".join(mcols) + self.from_clause(roots) + " into list"
+                rr = sb.run([qm], plan=copy.deepcopy(case["plan"]))
+                rx = sb.run([qm], plan=self.plan_with(case))
+                bad = crashy(rx) or crashy(rr)
+                if bad:
+                    viols.append(Violation(PROP, "C17.B.crash", ["C17.B", "abnormal_end:" + bad, fkind, "metadata"], {"query": qm, "faults": case["faults"], "outcome": rx.summary()}))
+                    return viols
+                ref_rows, rows = rr.rows(len(mcols)), rx.rows(len(mcols))
+                targets = {(f.get("fail") or f.get("mutate"))["path"] for f in case["faults"]}
+                hit = any(" inj:" in l for l in rx.log)
+                if [r[0] for r in rows] != [r[0] for r in ref_rows]:
+                    viols.append(Violation(PROP, "C17.B.rows", ["C17.B", "row_order_or_identity", fkind, "metadata"], {"query": qm, "rows": len(rows), "reference_rows": len(ref_rows)}))
+                    return viols
+                pre = (r0["sp"] + "/").encode("utf-8")
+                for row, rrow in zip(rows, ref_rows):
+                    wpath = r0["top"] + "/" + row[0][len(pre):].decode("utf-8")
+                    if wpath in targets and hit:
+                        for c, v, rv in zip(mcols[1:], row[1:], rrow[1:]):
+                            if v not in (b"", b"false", rv):
+                                viols.append(Violation(PROP, "C17.B.meta", ["C17.B", "foreign_value_in_unreadable_entry", fkind, c.split("(")[0]],
+                                                       {"query": qm, "entry": wpath, "column": c, "value": v.decode("utf-8", "replace")[:60], "own_value": rv.decode("utf-8", "replace")[:60], "faults": case["faults"]}))
+                                return viols
+                        ctx.metric("B_entries_unstatable")
+                    elif row[:-1] == rrow[:-1] and row[-1] in (b"", b"false") and self.link_target(nm, wpath) in targets:
+                        continue  # a link to the unreadable entry: its content column is legitimately empty
+                    elif row != rrow:
+                        viols.append(Violation(PROP, "C17.B.others", ["C17.B", "other_row_changed", fkind, "metadata"],
+                                               {"query": qm, "row": [x.decode("utf-8", "replace")[:60] for x in row], "reference": [x.decode("utf-8", "replace")[:60] for x in rrow]}))
+                        return viols
+                return viols
             if kind == "readlink":
                 # rows of a `symlinks` walk with the link unreadable: everything the plain walk finds, nothing the fault-free walk does not
                 qs = "select path" + self.from_clause(roots) + " symlinks into list"
